@@ -100,7 +100,7 @@ func (h *Header) Apply(hh http.Header) {
 		_, ok := hh[canonicalizedName]
 
 		if ok && h.Name != canonicalizedName { // key exists, replace it
-			hh[h.Name] = hh[canonicalizedName]
+			hh[h.Name] = append(hh[h.Name], hh[canonicalizedName]...)
 			delete(hh, canonicalizedName)
 		}
 	}
